@@ -1,4 +1,5 @@
 mod c13;
+mod c14;
 mod c46;
 mod c47;
 mod dag;
@@ -6,6 +7,7 @@ use vkit::{Check, Level};
 fn main() {
     vkit::main(&[
         Check { id: "C13", level: Level::Exploration, run: c13::run },
+        Check { id: "C14", level: Level::Exploration, run: c14::run },
         Check { id: "C46", level: Level::Exploration, run: c46::run },
         Check { id: "C47", level: Level::Exploration, run: c47::run },
     ]);
